@@ -7,6 +7,35 @@ import numpy
 
 DTYPES_Q = ("int64", "float64")
 DTYPES_T = ("int64", "float64", "int32", "int16", "float32")
+DTYPES_U = ("uint8", "uint16", "uint32", "uint64")
+LAYOUTS = ("F", "strided", "neg")     # memory layouts other than a fresh C-contiguous buffer
+_SPECIAL = {"nan": float("nan"), "inf": float("inf"), "-inf": float("-inf")}
+
+
+def is_int(dtype):
+    return dtype.startswith("int") or dtype.startswith("uint")
+
+
+def int_limits(dtype):
+    ii = numpy.iinfo(dtype)
+    lo, hi = int(ii.min), int(ii.max)
+    if dtype in ("int64", "uint64"):
+        lo, hi = max(lo, -(2 ** 62)), 2 ** 62
+    return lo, hi
+
+
+def _relayout(a, layout):
+    """The same cells in another memory layout (Fortran order, a strided view of a larger buffer, a transposed view)."""
+    if layout == "F":
+        return numpy.asfortranarray(a)
+    if layout == "strided":
+        big = numpy.zeros(tuple(2 * n for n in a.shape), dtype=a.dtype)
+        view = big[tuple(slice(None, None, 2) for _ in a.shape)]
+        view[...] = a
+        return view
+    if layout == "neg":
+        return numpy.ascontiguousarray(a[..., ::-1])[..., ::-1]       # negative stride along the last axis
+    return a
 
 
 # ---------------------------------------------------------------- (de)serialisation
@@ -16,12 +45,18 @@ def spec(shape, dtype, data, mask, kind="ma"):
 
 
 def build(s):
-    data = numpy.array(s["data"], dtype=s["dtype"]).reshape(s["shape"])
+    raw = [_SPECIAL[x] if isinstance(x, str) else x for x in s["data"]]     # "nan" / "inf" / "-inf" are spelled out in cases
+    data = numpy.array(raw, dtype=s["dtype"]).reshape(s["shape"])
+    layout = s.get("layout")
+    if layout:
+        data = _relayout(data, layout)
     if s.get("kind", "ma") == "plain":
         return data
     if s["mask"] is None:
-        return numpy.ma.array(data)
+        return numpy.ma.array(data, copy=False) if layout else numpy.ma.array(data)
     mask = numpy.array(s["mask"], dtype=bool).reshape(s["shape"])
+    if layout:
+        return numpy.ma.array(data, mask=_relayout(mask, layout), copy=False)
     return numpy.ma.array(data, mask=mask)
 
 
@@ -109,12 +144,14 @@ def gen_mask(rng, n, style=None):
     return [True] * n
 
 
-def gen_array(rng, shape, dtype="float64", fuzzy=False, mask_style=None, payload=None, distinct2=False):
+def gen_array(rng, shape, dtype="float64", fuzzy=False, mask_style=None, payload=None, distinct2=False, layout=None):
     n = 1
     for e in shape:
         n *= e
-    integer = dtype.startswith("int")
+    integer = is_int(dtype)
     data = [lattice_value(rng, fuzzy=fuzzy, integer=integer) for _ in range(n)]
+    if dtype.startswith("uint"):
+        data = [abs(v) for v in data]
     mask = gen_mask(rng, n, mask_style)
     if distinct2:
         # guarantee at least two distinct valid values where the cell count allows it
@@ -128,14 +165,23 @@ def gen_array(rng, shape, dtype="float64", fuzzy=False, mask_style=None, payload
         for i in range(n):
             if mask[i]:
                 p = payload if not isinstance(payload, (list, tuple)) else payload[i % len(payload)]
-                if integer:
-                    p = int(max(min(p, 2 ** 15 - 1 if dtype == "int16" else 2 ** 31 - 1 if dtype == "int32" else 2 ** 62), -(2 ** 15) if dtype == "int16" else -(2 ** 31) if dtype == "int32" else -(2 ** 62)))
-                elif dtype == "float32":
-                    p = float(max(min(p, 3e38), -3e38))
-                if fuzzy:
-                    p = float(p)
-                data[i] = p
-    return spec(shape, dtype, data, mask)
+                data[i] = _payload(p, dtype)
+    out = spec(shape, dtype, data, mask)
+    if layout:
+        out["layout"] = layout
+    return out
+
+
+def _payload(p, dtype):
+    """The number to hide under a masked cell, made representable in dtype ("nan" stays spelled out for float types)."""
+    if isinstance(p, str):
+        return 0 if is_int(dtype) else p
+    if is_int(dtype):
+        lo, hi = int_limits(dtype)
+        return int(max(min(p, hi), lo))
+    if dtype == "float32":
+        return float(max(min(p, 3e38), -3e38))
+    return float(p)
 
 
 def with_payload(s, payload):
@@ -144,18 +190,9 @@ def with_payload(s, payload):
         return s
     out = dict(s)
     data = list(s["data"])
-    integer = s["dtype"].startswith("int")
     for i, m in enumerate(s["mask"]):
         if m:
-            p = payload
-            if integer:
-                lim = 2 ** 15 - 1 if s["dtype"] == "int16" else 2 ** 31 - 1 if s["dtype"] == "int32" else 2 ** 62
-                p = int(max(min(p, lim), -lim))
-            elif s["dtype"] == "float32":
-                p = float(max(min(p, 3e38), -3e38))
-            else:
-                p = float(p)
-            data[i] = p
+            data[i] = _payload(payload, s["dtype"])
     out["data"] = data
     return out
 
